@@ -13,6 +13,7 @@ import (
 
 	"gmcheck/core"
 
+	"golang.org/x/tools/go/packages"
 	"golang.org/x/tools/go/ssa"
 )
 
@@ -111,22 +112,48 @@ func (c *Ctx) SNBTSuffix() []core.Ob {
 	emits := map[string]emit{}
 	for tv, cc := range ws.cases {
 		var e emit
+		isSuffix := func(s string) bool {
+			return len(s) == 1 && (s[0] >= 'A' && s[0] <= 'Z' || s[0] >= 'a' && s[0] <= 'z')
+		}
+		note := func(s string) {
+			switch {
+			case isSuffix(s):
+				e.suffixes = append(e.suffixes, s)
+			case strings.HasPrefix(s, "[") && strings.HasSuffix(s, ";"):
+				e.prefix = s
+			}
+		}
 		for _, hb := range c.withHelpers(ws.pkg, cc, ws.decl, 2) {
+			info := hb.pk.TypesInfo
 			ast.Inspect(hb.node, func(n ast.Node) bool {
 				switch v := n.(type) {
 				case *ast.BinaryExpr:
+					// number + "B"
 					if v.Op == token.ADD {
 						if bl, ok := v.Y.(*ast.BasicLit); ok && bl.Kind == token.STRING {
-							s, _ := strconv.Unquote(bl.Value)
-							e.suffixes = append(e.suffixes, s)
+							if s, err := strconv.Unquote(bl.Value); err == nil && isSuffix(s) {
+								e.suffixes = append(e.suffixes, s)
+							}
 						}
 					}
 				case *ast.CallExpr:
-					if sel, ok := v.Fun.(*ast.SelectorExpr); ok && sel.Sel.Name == "WriteString" && len(v.Args) == 1 {
-						if bl, ok := v.Args[0].(*ast.BasicLit); ok {
-							s, _ := strconv.Unquote(bl.Value)
-							if strings.HasPrefix(s, "[") && strings.HasSuffix(s, ";") {
-								e.prefix = s
+					// WriteString("[B;") and the like; a one-letter literal handed to a helper or closure (putInt(v, "B", err))
+					for _, a := range v.Args {
+						if bl, ok := a.(*ast.BasicLit); ok && bl.Kind == token.STRING {
+							if s, err := strconv.Unquote(bl.Value); err == nil {
+								if sel, ok := v.Fun.(*ast.SelectorExpr); ok && sel.Sel.Name == "WriteString" && isSuffix(s) {
+									continue // a separator or a letter written on its own, not a suffix
+								}
+								note(s)
+							}
+						}
+					}
+				case *ast.Ident:
+					// a spelling table: a package-level struct variable with string fields (prefix: "[B;", suffix: "B")
+					if vr, ok := info.Uses[v].(*types.Var); ok && vr.Pkg() != nil && vr.Parent() == vr.Pkg().Scope() {
+						if _, isStruct := vr.Type().Underlying().(*types.Struct); isStruct {
+							for _, s := range c.structVarStrings(hb.pk, vr) {
+								note(s)
 							}
 						}
 					}
@@ -137,26 +164,35 @@ func (c *Ctx) SNBTSuffix() []core.Ob {
 		emits[ws.names[tv]] = e
 	}
 	// ---- parser tables
-	fd, pk := c.astFuncDecl(plFn)
-	tables := charTagTables(pk.TypesInfo, fd.Body)
-	if len(tables) < 2 {
-		o := mk("parser-tables", "parseLiteral's integer and float suffix tables are extractable")
-		o.Status, o.Got = core.Violated, fmt.Sprintf("%d tables found", len(tables))
-		return append(obs, o)
-	}
-	var intTbl, floatTbl map[int64]string
-	for _, tb := range tables {
-		_, hasB := tb['B']
-		_, hasF := tb['F']
-		switch {
-		case hasB && intTbl == nil:
-			intTbl = tb
-		case hasF && !hasB && floatTbl == nil:
-			floatTbl = tb
+	_, pk := c.astFuncDecl(plFn)
+	_, intTbl, floatTbl, allTbls := c.literalParsersAll()
+	// what the parser's tables say about a suffix character: the tags it is mapped to (a table
+	// that lists float suffixes but not this one sends it to its default)
+	tagsOf := func(ch int64, float bool) map[string]bool {
+		out := map[string]bool{}
+		for _, tb := range allTbls {
+			if t, ok := tb[ch]; ok {
+				out[t] = true
+			} else if _, hasF := tb['F']; float && hasF {
+				if _, hasB := tb['B']; !hasB {
+					if t, ok := tb[-1]; ok {
+						out[t] = true
+					}
+				}
+			}
 		}
+		return out
+	}
+	keysOf := func(m map[string]bool) []string {
+		var ks []string
+		for k := range m {
+			ks = append(ks, k)
+		}
+		sort.Strings(ks)
+		return ks
 	}
 	if intTbl == nil || floatTbl == nil {
-		o := mk("parser-tables", "parseLiteral's integer and float suffix tables are extractable")
+		o := mk("parser-tables", "the literal parser's integer and float suffix tables are extractable")
 		o.Status, o.Got = core.Violated, "suffix switches not recognised"
 		return append(obs, o)
 	}
@@ -164,9 +200,11 @@ func (c *Ctx) SNBTSuffix() []core.Ob {
 	// the suffix classifiers are found by behaviour among the byte predicates parseLiteral calls:
 	// the integer one accepts B, S, L and rejects digits; the float one accepts F, D and rejects B
 	var intClass, floatClass *ssa.Function
-	for _, ci := range callsIn(plFn, func(string, *ssa.CallCommon) bool { return true }) {
-		sc := ci.Common().StaticCallee()
-		if sc == nil || !inPkgs(sc, "nbt") || len(sc.Params) != 1 || sc.Signature.Results().Len() != 1 {
+	for _, sc := range c.Funcs() {
+		if !inPkgs(sc, "nbt") || sc.Parent() != nil || len(sc.Params) != 1 || sc.Signature.Results().Len() != 1 || sc.Signature.Recv() != nil {
+			continue
+		}
+		if bt, ok := sc.Params[0].Type().Underlying().(*types.Basic); !ok || bt.Kind() != types.Uint8 {
 			continue
 		}
 		if b, ok := sc.Signature.Results().At(0).Type().Underlying().(*types.Basic); !ok || b.Kind() != types.Bool {
@@ -261,12 +299,8 @@ func (c *Ctx) SNBTSuffix() []core.Ob {
 				} else if !okc {
 					o.Status, o.Got = core.Violated, fmt.Sprintf("the parser's float-suffix predicate rejects %q", suf)
 				} else {
-					ft, okf := floatTbl[int64(ch)]
-					if !okf {
-						ft = floatTbl[-1]
-					}
-					if ft != want || intTbl[int64(ch)] != want {
-						o.Status, o.Got = core.Violated, fmt.Sprintf("suffix %q maps to %s/%s in the parser, the writer used it for %s", suf, ft, intTbl[int64(ch)], want)
+					if ts := tagsOf(int64(ch), true); len(ts) != 1 || !ts[want] {
+						o.Status, o.Got = core.Violated, fmt.Sprintf("suffix %q maps to %v in the parser, the writer used it for %s", suf, keysOf(ts), want)
 					}
 				}
 			}
@@ -306,7 +340,7 @@ func (c *Ctx) SNBTSuffix() []core.Ob {
 		}
 	}
 	po := mk("array-prefix-tables", "the typed-array prefixes B/I/L mean ByteArray/IntArray/LongArray in the writer, in TagType() and in the parser alike")
-	if len(prefTables) < 2 {
+	if len(prefTables) < 1 {
 		po.Status, po.Got = core.Violated, fmt.Sprintf("%d prefix tables found in TagType/writeListOrArray", len(prefTables))
 	} else {
 		for _, t := range []string{"TagByteArray", "TagIntArray", "TagLongArray"} {
@@ -326,8 +360,16 @@ func (c *Ctx) SNBTSuffix() []core.Ob {
 	return obs
 }
 
-// literalParser: the function of package nbt holding both numeric suffix switches.
-func (c *Ctx) literalParser() *ssa.Function {
+// literalParsers: the functions of package nbt that map numeric suffix characters
+// to tags (one function holding both tables, or the pieces it was split into),
+// with the integer table (has 'B') and the float table (has 'F', not 'B').
+func (c *Ctx) literalParsers() (fns []*ssa.Function, intTbl, floatTbl map[int64]string) {
+	fns, intTbl, floatTbl, _ = c.literalParsersAll()
+	return
+}
+
+// literalParsersAll additionally returns every suffix -> tag table found.
+func (c *Ctx) literalParsersAll() (fns []*ssa.Function, intTbl, floatTbl map[int64]string, all []map[int64]string) {
 	for _, fn := range c.Funcs() {
 		if !inPkgs(fn, "nbt") || fn.Parent() != nil {
 			continue
@@ -336,22 +378,43 @@ func (c *Ctx) literalParser() *ssa.Function {
 		if d == nil || p == nil {
 			continue
 		}
-		hasInt, hasFloat := false, false
-		for _, tb := range charTagTables(p.TypesInfo, d.Body) {
-			_, b := tb['B']
-			_, f := tb['F']
-			if b {
-				hasInt = true
+		hit := false
+		for _, tb := range charTagTables(p.TypesInfo, normDecl(p, d).Body) {
+			_, hasB := tb['B']
+			_, hasF := tb['F']
+			isArr := false
+			for k, v := range tb {
+				if k >= 0 && strings.HasSuffix(v, "Array") {
+					isArr = true
+				}
 			}
-			if f && !b {
-				hasFloat = true
+			if isArr {
+				continue
+			}
+			if hasB || hasF {
+				all = append(all, tb)
+			}
+			switch {
+			case hasB && intTbl == nil:
+				intTbl, hit = tb, true
+			case hasF && !hasB && floatTbl == nil:
+				floatTbl, hit = tb, true
 			}
 		}
-		if hasInt && hasFloat {
-			return fn
+		if hit {
+			fns = append(fns, fn)
 		}
 	}
-	return nil
+	return
+}
+
+// literalParser: the first of them (positions, names in messages).
+func (c *Ctx) literalParser() *ssa.Function {
+	fns, i, f := c.literalParsers()
+	if len(fns) == 0 || i == nil || f == nil {
+		return nil
+	}
+	return fns[0]
 }
 
 func tagValueByName(ts *tagSwitch, name string) int64 {
@@ -361,4 +424,37 @@ func tagValueByName(ts *tagSwitch, name string) int64 {
 		}
 	}
 	return -1
+}
+
+// structVarStrings: the string literals in the composite-literal initialiser of a package-level struct variable.
+func (c *Ctx) structVarStrings(pk *packages.Package, vr *types.Var) []string {
+	var out []string
+	for _, f := range pk.Syntax {
+		for _, d := range f.Decls {
+			gd, ok := d.(*ast.GenDecl)
+			if !ok || gd.Tok != token.VAR {
+				continue
+			}
+			for _, sp := range gd.Specs {
+				vs, ok := sp.(*ast.ValueSpec)
+				if !ok {
+					continue
+				}
+				for i, nm := range vs.Names {
+					if pk.TypesInfo.Defs[nm] != types.Object(vr) || i >= len(vs.Values) {
+						continue
+					}
+					ast.Inspect(vs.Values[i], func(n ast.Node) bool {
+						if bl, ok := n.(*ast.BasicLit); ok && bl.Kind == token.STRING {
+							if s, err := strconv.Unquote(bl.Value); err == nil {
+								out = append(out, s)
+							}
+						}
+						return true
+					})
+				}
+			}
+		}
+	}
+	return out
 }
